@@ -1,4 +1,5 @@
 import Sebuf.Lemmas.OaRules
+import Sebuf.Lemmas.OaNullable
 import Sebuf.Gen.OaRules
 /-!
 # C19 — OpenAPI constraints accept exactly what the declared validation rules accept
@@ -367,5 +368,32 @@ theorem not_full : ¬ Full := by
   have := (h (.num .int64) .single false {group := .int64, numConst := some (.int 7)} (.one (.num (.int 7))) (by decide)).2
   revert this
   decide
+
+/-! ### nullable fields -/
+
+/-- **a nullable field keeps every rule keyword**: for every scalar kind, every rule set and every
+JSON value other than `null`, the schema published for the field with `(sebuf.http.nullable)`
+(`type: [T, "null"]`) accepts exactly what the schema without the annotation accepts — so every
+`…_partial` theorem above carries over to nullable fields unchanged. -/
+theorem nullable_keeps_rules (k : FKind) (c : FCard) (i : Bool) (r : FieldRules) (hc : c.isScalar = true)
+    (fuel : Nat) (j : Json) (hj : j.isNull = false) :
+    accepts [] fuel (Impl.fieldSchemaN true k c i r) j = accepts [] fuel (Impl.fieldSchema k c i r) j := by
+  obtain ⟨kvs, hs, ht⟩ := fieldSchema_scalar_type k c i r hc
+  simp only [Impl.fieldSchemaN, hc, Bool.and_self, if_true, hs]
+  exact accepts_makeNullable [] fuel kvs _ j ht hj
+
+/-- without the annotation nothing changes. -/
+theorem not_nullable_same (k : FKind) (c : FCard) (i : Bool) (r : FieldRules) :
+    Impl.fieldSchemaN false k c i r = Impl.fieldSchema k c i r := by simp [Impl.fieldSchemaN]
+
+/-- non-vacuity and the regression the seeded change C19-r2-2 made (exclusive bounds dropped from the
+nullable copy): `optional int32 [nullable, gt: 0, lt: 10]` publishes both exclusive bounds, rejects 0
+and 10, accepts 5 and `null`. -/
+theorem w_nullable_exclusive_bounds :
+    let r : FieldRules := {group := .int32, gt := some (ib 0), lt := some (ib 10)}
+    let s := Impl.fieldSchemaN true (.num .int32) .optional false r
+    (kwOf s K.exclusiveMinimum).isSome ∧ (kwOf s K.exclusiveMaximum).isSome ∧
+    accepts [] 3 s (.num (.int 0)) = false ∧ accepts [] 3 s (.num (.int 10)) = false ∧
+    accepts [] 3 s (.num (.int 5)) = true ∧ accepts [] 3 s .null = true := by decide
 
 end Sebuf.C19
